@@ -1978,7 +1978,11 @@ func (f *formatter) ScalarEncapsedStringBrackets(n *ast.ScalarEncapsedStringBrac
 }
 
 func (f *formatter) ScalarHeredoc(n *ast.ScalarHeredoc) {
-	n.OpenHeredocTkn = f.newToken(token.T_START_HEREDOC, []byte("<<<EOT\n"))
+	opener := []byte("<<<EOT\n")
+	if n.OpenHeredocTkn != nil && bytes.IndexByte(n.OpenHeredocTkn.Value, '\'') >= 0 {
+		opener = []byte("<<<'EOT'\n")
+	}
+	n.OpenHeredocTkn = f.newToken(token.T_START_HEREDOC, opener)
 	for _, p := range n.Parts {
 		p.Accept(f)
 	}
